@@ -283,8 +283,10 @@ func (mp *MultiProof) Read(r io.Reader) error {
 		return fmt.Errorf("failed to read IPA proof: %w", err)
 	}
 	// Check that the next read is EOF.
+	// io.ReadFull reports io.EOF only if no byte at all could be read; a reader
+	// that hands out a trailing byte together with io.EOF must not be accepted.
 	var buf [1]byte
-	if _, err := r.Read(buf[:]); err != io.EOF {
+	if _, err := io.ReadFull(r, buf[:]); err != io.EOF {
 		return errors.New("expected EOF")
 	}
 
